@@ -29,6 +29,9 @@ class FuncGen(object):
         self.static = None   # name of a static (option) scalar argument, if any
         self.prims = set()
         self.fresh_only = False
+        self.pmethod = 0.5    # probability of the method form (a).sum() / (a).dot(b) / (a).T of a structural primitive
+        self.pscaled = 0.25   # probability that a leaf is a scaled input (c * x) rather than a bare name
+        self.cuts = (0.3, 0.6, 0.85)   # cumulative probabilities of unary / binary / structural (rest: leaf)
 
     def pick(self, seq):
         return seq[int(self.rng.integers(len(seq)))]
@@ -62,9 +65,9 @@ class FuncGen(object):
     def leaf(self, shape):
         v = self.var(shape)
         r = self.rng.random()
-        if r < 0.25:
+        if r < self.pscaled:
             return '%s * %s' % (self.lit(), v)
-        if r < 0.35 and self.static:
+        if r < self.pscaled + 0.1 and self.static:
             return '%s * %s' % (self.static, v)
         return v
 
@@ -90,6 +93,10 @@ class FuncGen(object):
         self.prims.add('mul' if op == '*' else 'add')
         return '(%s %s %s)' % (a, op, b)
 
+    def dotform(self):
+        """Function or method form of dot (the first operand is always an array)."""
+        return 'XP.dot(%s, %s)' if self.rng.random() >= self.pmethod else '(%s).dot(%s)'
+
     def structural(self, shape, d):
         rng = self.rng
         d = d - 1
@@ -99,10 +106,10 @@ class FuncGen(object):
             if k == 'sum':
                 a = self.expr(self.pick([(2,), (3,), (2, 3)]), d)
                 # function or method form (the operand is always an array)
-                return ('XP.sum(%s)' if rng.random() < 0.5 else '(%s).sum()') % a
+                return ('XP.sum(%s)' if rng.random() >= self.pmethod else '(%s).sum()') % a
             if k == 'dot':
                 n = self.pick([2, 3, 4])
-                return 'XP.dot(%s, %s)' % (self.expr((n,), d), self.expr((n,), d))
+                return self.dotform() % (self.expr((n,), d), self.expr((n,), d))
             shp = self.pick([(3,), (4,), (2, 3)])
             idx = ', '.join(str(int(rng.integers(s))) for s in shp)
             return '(%s)[%s]' % (self.expr(shp, d), idx)
@@ -112,7 +119,7 @@ class FuncGen(object):
             self.prims.add(k)
             if k == 'matvec':
                 c = self.pick([2, 3])
-                return 'XP.dot(%s, %s)' % (self.expr((n, c), d), self.expr((c,), d))
+                return self.dotform() % (self.expr((n, c), d), self.expr((c,), d))
             if k == 'matmul-op':
                 c = self.pick([2, 3])
                 # operands parenthesised: '@' and '*' have the same precedence ('a @ 0.5 * b' is '(a @ 0.5) * b')
@@ -127,7 +134,7 @@ class FuncGen(object):
                 return '(%s)[%d]' % (self.expr((r, n), d), int(rng.integers(r)))
             if k == 'axissum':
                 c = self.pick([2, 3])
-                return ('XP.sum(%s, axis=1)' if rng.random() < 0.5 else '(%s).sum(axis=1)') % self.expr((n, c), d)
+                return ('XP.sum(%s, axis=1)' if rng.random() >= self.pmethod else '(%s).sum(axis=1)') % self.expr((n, c), d)
             m = n + 1
             return '(%s)[1:]' % self.expr((m,), d)
         r_, c_ = shape
@@ -136,10 +143,10 @@ class FuncGen(object):
         if k == 'outer':
             return 'XP.outer(%s, %s)' % (self.expr((r_,), d), self.expr((c_,), d))
         if k == 'transpose':
-            return ('(%s).T' if rng.random() < 0.7 else 'XP.transpose(%s)') % self.expr((c_, r_), d)
+            return ('(%s).T' if rng.random() < max(0.7, self.pmethod) else 'XP.transpose(%s)') % self.expr((c_, r_), d)
         if k == 'matmat':
             m = self.pick([2, 3])
-            return 'XP.dot(%s, %s)' % (self.expr((r_, m), d), self.expr((m, c_), d))
+            return self.dotform() % (self.expr((r_, m), d), self.expr((m, c_), d))
         return '(%s * XP.reshape(%s, (%d, 1)))' % (self.expr((r_, c_), d), self.expr((r_,), d), r_)
 
     def expr(self, shape, d):
@@ -147,18 +154,23 @@ class FuncGen(object):
         if d <= 0:
             return self.leaf(shape)
         r = self.rng.random()
-        if r < 0.3:
+        if r < self.cuts[0]:
             return self.unary(shape, d)
-        if r < 0.6:
+        if r < self.cuts[1]:
             return self.binary(shape, d)
-        if r < 0.85:
+        if r < self.cuts[2]:
             return self.structural(shape, d)
         return self.leaf(shape)
 
 
-def gen_explicit(rng, nout=None, depth=None, with_static=False, max_inputs=3, elementwise_bias=0.4, lite=False):
-    """Description of an explicit function: inputs (name->shape), outputs (name->shape), body lines."""
+def gen_explicit(rng, nout=None, depth=None, with_static=False, max_inputs=3, elementwise_bias=0.4, lite=False,
+                 methods=False):
+    """Description of an explicit function: inputs (name->shape), outputs (name->shape), body lines.
+    methods: structural primitives in method form on compound receivers ((0.5 * a).dot(b), (2.0 * a).T, ...): the
+    style that a source-level dependency analysis has to see through."""
     g = FuncGen(rng, max_inputs=max_inputs)
+    if methods:
+        g.pmethod, g.pscaled, g.cuts = 1.0, 1.0, (0.15, 0.3, 0.9)
     if with_static:
         g.static = 'kopt'
     nout = nout or int(g.pick(LITE['nouts'] if lite else [1, 1, 2, 2, 3]))
@@ -179,10 +191,12 @@ def gen_explicit(rng, nout=None, depth=None, with_static=False, max_inputs=3, el
             'lines': lines, 'static': g.static, 'prims': sorted(g.prims)}
 
 
-def gen_implicit(rng, nstate=None, depth=None, with_static=False, max_inputs=3, lite=False):
+def gen_implicit(rng, nstate=None, depth=None, with_static=False, max_inputs=3, lite=False, methods=False):
     """Residuals r_i = c_i*s_i + 0.3*sin(s_i) [+ 0.2*coupling] - g_i(inputs): diagonally dominant in the
     states, so a Newton solve converges and the implicit-function-theorem totals are well conditioned."""
     g = FuncGen(rng, max_inputs=max_inputs)
+    if methods:
+        g.pmethod, g.pscaled, g.cuts = 1.0, 1.0, (0.15, 0.3, 0.9)
     if with_static:
         g.static = 'kopt'
     nstate = nstate or int(g.pick(LITE['nstates'] if lite else [1, 1, 2]))
